@@ -33,6 +33,8 @@ package command
 //@   ensures runs() == old(runs()) + 1 && ranEnv() == c.cmd.Env && ranDir() == c.cmd.Dir
 //@   ensures lastRunFailed() <==> result != nil
 //@   assigns runs(), ranEnv(), ranDir(), lastRunFailed()
+// C06: the shutdown command is bound to the context that carries the shutdown timeout (it is killed at the deadline)
 //@ func BuildCommandShellArgContext
 //@   ensures result != nil && fresh(result) && result.cmd != nil && fresh(result.cmd)
-//@   assigns nothing
+//@   ensures bound-to-context: cmdCtx(result.cmd) == ctx
+//@   assigns cmdCtx[*]
